@@ -29,6 +29,7 @@ enum Fam {
     SigLegacy(usize),
     HashLock(Vec<u8>),
     TimeLock(u64),
+    Deadline(u64),
     IndexBound(u8),
     ValueAbove(u128),
     AddDataFirstByte(u8),
@@ -46,6 +47,7 @@ fn fam_name(f: &Fam) -> &'static str {
         Fam::SigLegacy(_) => "ed25519-legacy",
         Fam::HashLock(_) => "hash-lock",
         Fam::TimeLock(_) => "time-lock",
+        Fam::Deadline(_) => "deadline",
         Fam::IndexBound(_) => "index-bound",
         Fam::ValueAbove(_) => "value-bound",
         Fam::AddDataFirstByte(_) => "additional-data-bound",
@@ -68,6 +70,8 @@ fn cov_of(f: &Fam, keys: &[Key]) -> Vec<u8> {
         }
         // previous header's height > T :  Lt pops x (top) = T, y = height -> T < height
         Fam::TimeLock(t) => refvm::encode(&[pushi(2), Op::LoadImm(10), Op::VRef, pushi(*t as u128), Op::Lt]).unwrap(),
+        // previous header's height < K : Gt pops x (top) = K, y = height -> K > height
+        Fam::Deadline(k) => refvm::encode(&[pushi(2), Op::LoadImm(10), Op::VRef, pushi(*k as u128), Op::Gt]).unwrap(),
         Fam::IndexBound(k) => refvm::encode(&[Op::LoadImm(9), pushi(*k as u128), Op::Eql]).unwrap(),
         // value > v : Gt pops x (top) = value, y = v
         Fam::ValueAbove(v) => refvm::encode(&[pushi(*v), Op::LoadImm(5), Op::Gt]).unwrap(),
@@ -90,7 +94,7 @@ struct Input {
 
 pub fn run(p: &Params) -> Report {
     let mut rep = Report::new("C04");
-    rep.rule = "cases = (state, spending transaction) in which everything except authorisation is valid by construction (coins exist, balanced, fee paid, unlocked, well-formed): 1-8 inputs drawn from covenant families ed25519 legacy/new (right/wrong key, right/wrong slot, signature over another transaction, fields tampered after signing, truncated), hash-lock on data, time-lock on the previous header, spender-index-, value-, additional-data-, parent-height-, parent-index-, output-count-bound, self-hash and random programs; inputs may share one covenant hash while differing in environment; covenants may be missing or undecodable. Oracle: the reference interpreter on the reference environment heap for every input: accepted => every input authorised; for the two standard signature covenants also all authorised => accepted. Non-trivial = >= 2 inputs, or an environment-dependent covenant, or a tampered transaction; distinct by transaction hash".into();
+    rep.rule = "cases = (state, spending transaction) in which everything except authorisation is valid by construction (coins exist, balanced, fee paid, unlocked, well-formed): 1-8 inputs drawn from covenant families ed25519 legacy/new (right/wrong key, right/wrong slot, signature over another transaction, fields tampered after signing, truncated), hash-lock on data, time-lock and deadline on the previous header's height, spender-index-, value-, additional-data-, parent-height-, parent-index-, output-count-bound, self-hash and random programs; inputs may share one covenant hash while differing in environment; covenants may be missing or undecodable. Oracle: the reference interpreter on the reference environment heap for every input: accepted => every input authorised; for the two standard signature covenants also all authorised => accepted. Non-trivial = >= 2 inputs, or an environment-dependent covenant, or a tampered transaction; distinct by transaction hash".into();
     let total = p.n(12_000, 240_000);
     let mine = p.share(total);
     let mut rng = Rng::new(p.shard_seed() ^ 0xC04);
@@ -117,7 +121,13 @@ pub fn run(p: &Params) -> Report {
                     0 | 1 => Fam::SigNew(r.usize(4)),
                     2 => Fam::SigLegacy(r.usize(4)),
                     3 => Fam::HashLock(r.bytes(1 + r.clone().usize(40))),
-                    4 => Fam::TimeLock(height - 3 + r.below(6)),
+                    4 => {
+                        if r.chance(1, 2) {
+                            Fam::TimeLock(height - 3 + r.below(6))
+                        } else {
+                            Fam::Deadline(height - 2 + r.below(5))
+                        }
+                    }
                     5 | 6 => Fam::IndexBound(r.below(n_in as u64 + 1) as u8),
                     7 => Fam::ValueAbove(1000 + r.below(1000) as u128),
                     8 => Fam::AddDataFirstByte(r.below(3) as u8),
